@@ -450,11 +450,17 @@ class Enc:
 _counter = [0]
 
 
-def make_interface(methods):
-    """methods: {name: (argnames, [constraint objects/shorthands], response or None)} -> a fresh RemoteInterface"""
+def make_interface(methods, direct=False):
+    """methods: {name: (argnames, [constraint objects/shorthands], response or None)} -> a fresh RemoteInterface.
+    Both public ways of declaring a method schema: a prototype function whose defaults are the constraints
+    (RemoteMethodSchema.initFromMethod), or, with direct=True, a RemoteMethodSchema(_response=..., **constraints)
+    assigned in the interface body (RemoteMethodSchema.__init__ with keyword arguments)."""
     _counter[0] += 1
     attrs = {"__remote_name__": "RIVerif%d" % _counter[0]}
     for name, (argnames, cons, resp) in methods.items():
+        if direct:
+            attrs[name] = RemoteMethodSchema(_response=resp if resp is not None else Nothing(), **dict(zip(argnames, cons)))
+            continue
         env = {"_d": list(cons), "_r": resp}
         src = "def %s(%s):\n    return _r\n" % (name, ", ".join("%s=_d[%d]" % (a, i) for i, a in enumerate(argnames)))
         exec(src, env)
@@ -528,10 +534,10 @@ def vocab_words(vocab_index):
 class World:
     """a Broker pair, a Target implementing a fresh RemoteInterface with one method `m`"""
 
-    def __init__(self, argnames, cons, resp=None, result=None, shared_iface=True, vocab=0):
+    def __init__(self, argnames, cons, resp=None, result=None, shared_iface=True, vocab=0, direct=False):
         E.reset_clock()
         self.vocab = vocab
-        self.iface = make_interface({"m": (argnames, cons, resp)})
+        self.iface = make_interface({"m": (argnames, cons, resp)}, direct=direct)
         self.ms = self.iface["m"]
         implementer(self.iface)(type("T", (Target,), {}))
         cls = implementer(self.iface)(type("T", (Target,), {}))
@@ -634,12 +640,12 @@ def IConstraint_of(c):
     return IConstraint(c)
 
 
-def call_trial(argnames, cons, pos_ws, kw_ws, numargs=None, prelude=None, vocab=0):
+def call_trial(argnames, cons, pos_ws, kw_ws, numargs=None, prelude=None, vocab=0, direct=False):
     """hand-built `call` for method m(argnames=cons): positional wire trees pos_ws, keyword wire trees kw_ws
     [(name, ws)..].  The caller side has a PendingRequest for reqID 1 so the Error/Answer coming back is observed.
     prelude: list of value specs sent first inside the arguments scope?  (not possible: see smuggle_trial)"""
     from foolscap import call as callmod
-    w = World(argnames, cons, None, vocab=vocab)
+    w = World(argnames, cons, None, vocab=vocab, direct=direct)
     req = callmod.PendingRequest(1, None, None, "m")
     w.cb.addRequest(req)
     res = []
